@@ -222,6 +222,13 @@ func (c04) Gen(r *rand.Rand, tier string, run int) *core.Case {
 			c.Ops = append(c.Ops, core.Op{Kind: "raw", Actor: 100, X: int64(1 + r.IntN(8)), Y: int64(r.IntN(4)), S: "lent"})
 		}
 	}
+	if c.Params["raw"] == 1 && r.IntN(3) == 0 {
+		// one more peer, in a hurry: it calls the service before it has
+		// authenticated, then authenticates and calls again on the same
+		// connection. Each of its calls has one outcome (an answer, or the
+		// end of the connection), whatever the server thinks of its manners
+		c.Params["premature"] = 1 + r.IntN(3)
+	}
 	if c.Params["raw"] == 1 {
 		n := 2 + r.IntN(8)
 		for i := 0; i < n; i++ {
@@ -470,6 +477,40 @@ func (c04) Run(c *core.Case, env *core.Env) {
 			}
 		}(a)
 	}
+	if k := c.P("premature", 0); k > 0 {
+		wg.Add(1)
+		go func() {
+			defer wg.Done()
+			early, err := DialRaw(env, "rawearly", 101)
+			if err != nil {
+				return
+			}
+			one := func(what string, f ref.Frame) {
+				h := env.Invoke(101, "raw-early-"+what, fmt.Sprintf("id%d", f.ID))
+				err := early.Send(f)
+				out := ""
+				if err == nil {
+					if a, ok := early.WaitID(f.ID); ok {
+						out = ref.TypeName(a.Type)
+					} else {
+						out = "end of the connection"
+					}
+				}
+				env.Return(h, out, err)
+			}
+			tok := ref.Token{Client: 101, Seq: 1, Nonce: 1, Text: "e"}
+			typ := uint8([]int{ref.Call, ref.Call, ref.Post}[k-1])
+			if typ == ref.Call {
+				one("call", ref.NewFrame(ref.Call, w.ServiceID, 1, ActEcho, early.NextID(), ref.EncodeToken(tok)))
+			} else {
+				early.Send(ref.NewFrame(ref.Post, w.ServiceID, 1, ActFire, early.NextID(), ref.EncodeToken(tok)))
+			}
+			one("authenticate", ref.NewFrame(ref.Call, 0, 0, 8, early.NextID(), ref.AuthPayload("u", "p")))
+			tok.Seq = 2
+			one("call", ref.NewFrame(ref.Call, w.ServiceID, 1, ActEcho, early.NextID(), ref.EncodeToken(tok)))
+			env.Probe("peers-calling-before-they-authenticate")
+		}()
+	}
 	if doomed >= 0 && doomed < len(proxies[0]) && doomed < len(w.ObjIDs) {
 		wg.Add(1)
 		go func() {
@@ -674,6 +715,9 @@ func (c04) Check(c *core.Case, env *core.Env, res zzsim.Result, v *core.Verdict)
 	seenOrd := map[string]*core.Hist{}
 	for _, h := range hs {
 		if strings.HasPrefix(h.Kind, "raw-") {
+			if h.Ret == 0 {
+				bad("hang/"+h.Kind, "a peer's request has no outcome, neither an answer nor the end of its connection: %s", h)
+			}
 			continue
 		}
 		key, objs, _ := strings.Cut(h.Arg, "@o")
